@@ -4,7 +4,7 @@ statement (domination depth DP, monotone cuts, crowding formula in Fractions on 
 import math
 from fractions import Fraction
 
-from common import wf, wlist, bits2f
+from common import wf, wq, wlist, bits2f
 import plat
 from plat import mk_problem, mk_sol, sol_q, dirs_w, call
 
@@ -126,7 +126,22 @@ def run(ctx, drv):
             ask(f"crowdF {n} {len(front)} " + " ".join(wlist(o, wf) for o in front),
                 lambda g, got=got, front=front: None if [bits2f(x) for x in g.split()[1:]] == [float(v) for v in got]
                 else ctx.disagree("crowding_distance Float instance", {"front": front}, got, [bits2f(x) for x in g.split()[1:]]))
+            # the generic crowding model (the one the theorems of Props/C04Crowding are about) at Float, bit for bit ...
+            ask(f"crowdG {n} {len(front)} " + " ".join(wlist(o, wf) for o in front),
+                lambda g, got=got, front=front: None if [bits2f(x) for x in g.split()[1:]] == [float(v) for v in got]
+                else ctx.disagree("crowding_distance: generic model (crowdingG) at Float", {"front": front}, got, [bits2f(x) for x in g.split()[1:]]))
             ref = cd_reference(front)
+            # ... and at Rat against the exact oracle (exact-arithmetic meaning of the same definition)
+            # (skipped when the collapsed-range test `max - min < EPSILON` is decided differently by double and by exact subtraction)
+            eps_ = 2.220446049250313e-16
+            cols = list(zip(*front)) if front else []
+            threshold_is_rounding_sensitive = any(((max(c) - min(c)) < eps_) != ((Fraction(max(c)) - Fraction(min(c))) < Fraction(eps_)) for c in cols)
+            if threshold_is_rounding_sensitive or not all(math.isfinite(v) for o in front for v in o):
+                ctx.count("crowdQ_skipped_rounding_sensitive_threshold")
+            else:
+              ask(f"crowdQ {n} {len(front)} " + " ".join(wlist(o, wq) for o in front),
+                  lambda g, ref=ref, front=front: None if [None if x == "inf" else Fraction(x) for x in g.split()[1:]] == ref
+                  else ctx.disagree("crowding_distance: generic model (crowdingG) at Rat vs exact oracle", {"front": front}, [None if r_ is None else str(r_) for r_ in ref], g[:300]))
             if len({tuple(o) for o in front}) >= 3:
                 big = True
             for v, rv, o in zip(got, ref, front):
